@@ -610,7 +610,26 @@ func judgeC12(rep *base.Report, p *runner.Prog, pk *packages.Package) {
 			ndecl := 0
 			var probs []string
 			sig := ""
+			// parameter/result names inside function *type* literals (func(arg0 T) (result0 U))
+			// name nothing in the injector's scopes
+			pureFuncTypes := map[*ast.FuncType]bool{}
 			ast.Inspect(fd, func(n ast.Node) bool {
+				if ft, ok := n.(*ast.FuncType); ok {
+					pureFuncTypes[ft] = true
+				}
+				return true
+			})
+			delete(pureFuncTypes, fd.Type)
+			ast.Inspect(fd, func(n ast.Node) bool {
+				if fl, ok := n.(*ast.FuncLit); ok {
+					delete(pureFuncTypes, fl.Type)
+				}
+				return true
+			})
+			ast.Inspect(fd, func(n ast.Node) bool {
+				if ft, ok := n.(*ast.FuncType); ok && pureFuncTypes[ft] {
+					return false
+				}
 				id, ok := n.(*ast.Ident)
 				if !ok {
 					return true
